@@ -13,6 +13,7 @@ import DendroModel.Theory.C08Parse
 import DendroModel.Theory.C08Strike
 import DendroModel.Theory.C08UpdFull
 import DendroModel.Theory.C08Heap
+import DendroModel.Theory.C08Compose
 /-! C08 — property theorems.  Every `theorem` directly in `namespace DendroModel.C08` of this file is an obligation.
 They are statements about the definitions `drv_c08` executes (`Model/C08.lean`): the mechanisms as the code runs them
 (`pruneTaxa` = strike pass + leaf-removal loop + `T.sup`; `filterLeaves`; `retainTaxa`; `extractTree` = memo-driven fold over
@@ -653,12 +654,12 @@ theorem strike_default_spec (P : Nat → Bool) (t : T) :
 /-- the first pass for the three flag settings that have a closed description equals `strikeSpec` (the driver runs it: op
     `strikespec`; the harness compares it with a from-scratch computation): both flags on = every node carrying a pruned taxon goes
     with its subtree (`chop`, decided top-down); default = `sweep` (top-down with `allIn`); both off = nothing happens.
-    (leaf flag off + internal flag on has no closed form here.) -/
+    leaf flag off + internal flag on = `goneFI` / `dropFI` (see `strike_leaf_off_internal_on`). -/
 theorem strike_eq_strikeSpec (P : Nat → Bool) (fl fi : Bool) (t : T) (r : Option T)
     (h : strikeSpec P fl fi t = some r) : strike P fl fi t = r := by
   cases fl <;> cases fi <;> simp only [strikeSpec, Option.some.injEq] at h
   · rw [← h]; exact strike_none P t
-  · cases h
+  · rw [← h]; exact strike_fi P t
   · rw [← h]; exact strike_eq_sweep P t
   · rw [← h]; exact strike_both P t
 
@@ -668,6 +669,30 @@ theorem prune_flags_full_spec (P : Nat → Bool) (fl fi sup : Bool) (t : T) (r :
     (h : strikeSpec P fl fi t = some r) :
     pruneTaxa P fl fi sup t = r.bind (fun t1 => (restrictA hasTaxon t1).map (supIf sup)) := by
   rw [prune_flags_eq_spec, strike_eq_strikeSpec P fl fi t r h]
+
+/-- GAP CLOSED (`prune_taxa` with leaf flag off, internal flag on, any tree): the post-order pass removes exactly the nodes `goneFI`
+    condemns, each with everything below it (`dropFI`, decided top-down without running the pass), where a node is condemned iff it
+    carries a pruned taxon and at least one of its children is NOT condemned; a leaf never is.  (So along a chain of nodes that all
+    carry pruned taxa every second one goes: the rule alternates, which is why no description by "all/some of the subtree" exists.) -/
+theorem strike_leaf_off_internal_on (P : Nat → Bool) (t : T) :
+    strike P false true t = (if goneFI P t then none else some (dropFI P t)) ∧
+    goneFI P t = (inP P t.taxon && t.cs.any (fun c => !goneFI P c)) ∧ (t.cs = [] → goneFI P t = false) := by
+  have hany : ∀ cs : List T, someStaysFI P cs = cs.any (fun c => !goneFI P c) := by
+    intro cs; induction cs with
+    | nil => rfl
+    | cons c cs ih => simp [someStaysFI, ih]
+  refine ⟨strike_fi P t, ?_, ?_⟩
+  · obtain ⟨i, x, l, s, cs⟩ := t
+    simp [goneFI, hany, T.taxon, T.cs]
+  · obtain ⟨i, x, l, s, cs⟩ := t
+    intro h; simp only [T.cs] at h; subst h; simp [goneFI, someStaysFI]
+
+/-- hence `prune_taxa` has a two-phase specification independent of its loops for EVERY setting of the two flags on every tree -/
+theorem prune_taxa_every_flag_setting (P : Nat → Bool) (fl fi sup : Bool) (t : T) :
+    ∃ r, strikeSpec P fl fi t = some r ∧ pruneTaxa P fl fi sup t = r.bind (fun t1 => (restrictA hasTaxon t1).map (supIf sup)) := by
+  have : ∃ r, strikeSpec P fl fi t = some r := by cases fl <;> cases fi <;> exact ⟨_, rfl⟩
+  obtain ⟨r, hr⟩ := this
+  exact ⟨r, hr, prune_flags_full_spec P fl fi sup t r hr⟩
 
 /-! ### by label and `prune_leaves_without_taxa`, with `update_bipartitions=True`, any rooting state -/
 
@@ -893,6 +918,38 @@ theorem extract_result_is_new (acc : Acc) (fl fi sup : Bool) (t : T) (h : List C
   obtain ⟨I, _⟩ := extractHeap_inv acc fl fi sup t h
   exact ⟨I.startOk, I.fresh⟩
 
+/-! ### histories of in-place calls: restrictions compose -/
+
+/-- restricting an induced subtree that was taken with suppression declined once more (with or without suppression) is restricting
+    the ORIGINAL tree by both predicates at once: a later call sees nothing of the earlier one but the leaves it removed -/
+theorem restrict_composes (p q : Acc) (sup : Bool) (t r : T) (h : restrict p false t = some r) :
+    restrict q sup r = restrict (both p q) sup t :=
+  restrict_restrict p q sup t r h
+
+/-- `prune_subtree(i, suppress_unifurcations=False)` followed by `prune_subtree(j, suppress_unifurcations=sup2)` on the tree the first
+    call left (the history a seeded change relied on: the first call leaves unary nodes behind, the second must deal with ALL of
+    them, not only with the one it creates): the final tree is the subtree of the ORIGINAL tree induced by the leaves outside both
+    pruned subtrees — so with `sup2` on it has no unary node at all (`suppress_no_unary`), whatever the first call left -/
+theorem prune_subtree_twice (i j : Nat) (sup2 : Bool) (t subI subJ : T) (hnd : (ids t).Nodup) (hni : t.id ≠ i)
+    (hfi : t.find? i = some subI) (hk : (cut i t).cs.isEmpty = false) (hnj : t.id ≠ j)
+    (hfj : (pruneSubtree i false t).find? j = some subJ) :
+    restrict (both (outside (ids subI)) (outside (ids subJ))) sup2 t =
+      (if (cut j (pruneSubtree i false t)).cs.isEmpty then none else some (pruneSubtree j sup2 (pruneSubtree i false t))) ∧
+    (sup2 = true → (cut j (pruneSubtree i false t)).cs.isEmpty = false → NoUnary (pruneSubtree j sup2 (pruneSubtree i false t))) := by
+  have h1 := prune_subtree_eq_restrict i false t subI hnd hni hfi
+  rw [hk] at h1
+  simp only [Bool.false_eq_true, if_false] at h1
+  have hnd1 : (ids (pruneSubtree i false t)).Nodup := (restrict_ids_sublist _ t _ h1).nodup hnd
+  have hid1 : (pruneSubtree i false t).id = t.id := (nosuppress_spec _ t _ h1).2.1
+  have h2 := prune_subtree_eq_restrict j sup2 (pruneSubtree i false t) subJ hnd1 (by rw [hid1]; exact hnj) hfj
+  have h3 := restrict_composes _ (outside (ids subJ)) sup2 t _ h1
+  refine ⟨by rw [← h3, h2], ?_⟩
+  intro hs hne
+  subst hs
+  rw [hne] at h2
+  simp only [Bool.false_eq_true, if_false] at h2
+  exact suppress_no_unary _ _ _ h2
+
 /-! ### the hypotheses are satisfiable, the statements are not vacuous -/
 def demo : T :=
   .node 0 none (some ⟨9, 1⟩) none
@@ -954,5 +1011,17 @@ example : getTaxa false [(0, "Éa"), (1, "éA"), (2, "E")] ["éa"] = [0, 1] := b
 
 example : extractHeapShow (taxonFilter (fun k => k == 1 || k == 2)) true false true demo = "(0 - 9 (3 1 5) (5 2 12)) | source-intact" := by decide +kernel
 example : (extractHeap (taxonFilter (fun k => k == 1 || k == 2)) true false true demo (heapOf demo 9)).heap.length = 12 := by decide +kernel
+
+def demoChain : T :=
+  .node 0 (some 9) none none [.node 1 (some 5) none none [.node 2 (some 6) none none [.node 3 (some 0) none none []]],
+    .node 4 (some 7) none none [.node 5 (some 1) none none []]]
+example : (strike (fun k => k == 5 || k == 6 || k == 0) false true demoChain).map T.render = some "(0 9 N (1 5 N) (4 7 N (5 1 N)))" := by decide
+example : (goneFI (fun k => k == 5 || k == 6 || k == 0) demoChain, (dropFI (fun k => k == 5 || k == 6 || k == 0) demoChain).render)
+    = (false, "(0 9 N (1 5 N) (4 7 N (5 1 N)))") := by decide
+
+example : (pruneSubtree 2 false demo).render = "(0 - 9 (1 - 3 (3 1 2)) (4 - 8 (5 2 4) (6 - 7 (7 3 5) (8 4 6))))"
+    ∧ ((pruneSubtree 2 false demo).find? 7).map T.id = some 7 ∧ (cut 2 demo).cs.isEmpty = false := by decide
+example : (pruneSubtree 7 true (pruneSubtree 2 false demo)).render = "(0 - 9 (3 1 5) (4 - 8 (5 2 4) (8 4 13)))" := by decide
+example : (restrict (both (outside [2]) (outside [7])) true demo).map T.render = some "(0 - 9 (3 1 5) (4 - 8 (5 2 4) (8 4 13)))" := by decide
 
 end DendroModel.C08
